@@ -210,6 +210,21 @@ def impl_safe(suite, case):
         return "harness-exception:" + type(exc).__name__ + ":" + str(exc)[:200].replace("\n", " ")
 
 
+def raised_in_library(exc) -> bool:
+    """did this exception come out of the code under test (rather than out of the harness)?"""
+    try:
+        import cpppo
+        root = os.path.dirname(os.path.abspath(cpppo.__file__)) + os.sep
+    except Exception:
+        return False
+    tb = exc.__traceback__
+    while tb is not None:
+        if os.path.abspath(tb.tb_frame.f_code.co_filename).startswith(root):
+            return True
+        tb = tb.tb_next
+    return False
+
+
 def check(suite: Suite, tier: str, seed: int, replay: str | None = None, budget_s: float | None = None):
     t0 = time.time()
     pid = suite.id
@@ -249,7 +264,16 @@ def check(suite: Suite, tier: str, seed: int, replay: str | None = None, budget_
             report["broken_obligations"].append({"what": "leanchecker rejected", "log": out[-3000:]})
 
     # 4. correspondence
-    suite.setup(tier, rng)
+    setup_ok = True
+    try:
+        suite.setup(tier, rng)
+    except Exception as exc:
+        if not raised_in_library(exc):
+            raise
+        setup_ok = False
+        report["broken_obligations"].append({
+            "what": "the suite's setup raised inside the code under test: %s: %s" % (type(exc).__name__, str(exc)[:200]),
+            "log": "".join(traceback.format_exception(type(exc), exc, exc.__traceback__))[-3000:]})
     cases = []
     corpus_file = os.path.join(CORPUS, pid + ".jsonl")
     if replay:
@@ -262,10 +286,20 @@ def check(suite: Suite, tier: str, seed: int, replay: str | None = None, budget_
                 if line:
                     cases.append(json.loads(line))
         n_corpus = len(cases)
-        for c in suite.cases(tier, rng):
-            cases.append(c)
-            if budget_s and time.time() - t0 > budget_s:
-                break
+        try:
+            for c in (suite.cases(tier, rng) if setup_ok else []):
+                cases.append(c)
+                if budget_s and time.time() - t0 > budget_s:
+                    break
+        except Exception as exc:
+            # a generator that drives the library to build its inputs (payloads, devices) met an exception inside the
+            # library: the correspondence cannot be run as planned; that is a broken obligation, not a harness crash
+            if not raised_in_library(exc):
+                raise
+            report["broken_obligations"].append({
+                "what": "case generation raised inside the code under test after %d cases: %s: %s" % (
+                    len(cases) - n_corpus, type(exc).__name__, str(exc)[:200]),
+                "log": "".join(traceback.format_exception(type(exc), exc, exc.__traceback__))[-3000:]})
     impl_out = [impl_safe(suite, c) for c in cases]
     lines = [suite.model_line(c) for c in cases]
     model_out = None
@@ -325,18 +359,23 @@ def check(suite: Suite, tier: str, seed: int, replay: str | None = None, budget_
             if why and suite.known_key(c) not in known_keys:
                 found = {"case": c, "line": suite.model_line(c), "impl": out, "why": why}
                 break
-        if not found and not replay:
+        if not found and not replay and setup_ok:
             srng = random.Random(f"{pid}-search-{seed}")
             t1 = time.time()
             limit = 120 if tier == "quick" else 900
-            for c in suite.search_cases(tier, srng):
-                out = impl_safe(suite, c)
-                why = suite.oracle(c, out)
-                if why and suite.known_key(c) not in known_keys:
-                    found = {"case": c, "line": suite.model_line(c), "impl": out, "why": why}
-                    break
-                if time.time() - t1 > limit:
-                    break
+            try:
+                for c in suite.search_cases(tier, srng):
+                    out = impl_safe(suite, c)
+                    why = suite.oracle(c, out)
+                    if why and suite.known_key(c) not in known_keys:
+                        found = {"case": c, "line": suite.model_line(c), "impl": out, "why": why}
+                        break
+                    if time.time() - t1 > limit:
+                        break
+            except Exception as exc:
+                if not raised_in_library(exc):
+                    raise
+                log(f"[{pid}] the search's generator raised inside the code under test too: {type(exc).__name__}")
         if found:
             found = shrink_failure(suite, found)
             violation = {"kind": "failing-input", "cases": [found], "why": found["why"]}
